@@ -30,14 +30,23 @@ def run(ctx: Ctx) -> None:
         "orderings; D1.4 the stored id is |x[i]|; D1.5 the bin counter "
         "starts at 1, only ever grows by 1, every new value is stored as "
         "the bin of the current row, and is returned; D1.6 the integer type "
-        "requested for the packing covers H + h and n_items. NOT decided: "
-        "non-overlap of the placed rectangles (needs an inductive "
-        "geometric invariant).")
+        "requested for the packing covers H + h and n_items; D1.7 "
+        "non-overlap, by induction over moves: (a) an item is dropped with "
+        "its bottom at H, above every box kept in the bin (their top <= H "
+        "by D1.3), or reset to (0,0,w,h) in a fresh bin; (b) PAIRWISE MOVE "
+        "LEMMA - for every leaf of a kernel's per-blocker limit tree, "
+        "every path disjunct and every way two boxes can be disjoint, "
+        "moving by 0 < M <= limit (and M <= own coordinate) keeps them "
+        "disjoint (decided by Fourier-Motzkin); (c) the window a kernel "
+        "scans contains all boxes of the bin (C14 D14.4 / D14.1, boxes of "
+        "other bins are ignored by encoding 2). The composition (a)+(b)+(c) "
+        "is an argument on paper, not machine-checked.")
     for rid, txt in (("D1.1", "rotation lemma (all orderings)"),
                      ("D1.2", "rectangle size preserved"),
                      ("D1.3", "inside the bin"),
                      ("D1.4", "ids"), ("D1.5", "bin numbering"),
-                     ("D1.6", "storage type wide enough")):
+                     ("D1.6", "storage type wide enough"),
+                     ("D1.7", "moves preserve pairwise non-overlap")):
         ctx.rule(rid, txt)
     C = cols(ctx)
     acc = _constructor_accepts(ctx)
@@ -47,6 +56,8 @@ def run(ctx: Ctx) -> None:
         _rotation(ctx, dec, acc)
         for kn, kind in (("__move_down", "down"), ("__move_left", "left")):
             _move_shape(ctx, repo.func(ENC + enc, kn), kind, C)
+            _move_lemma(ctx, repo.func(ENC + enc, kn), kind, C,
+                        enc.endswith("2"))
         _decode_rules(ctx, dec, C, enc.endswith("2"))
     _dtype(ctx)
     ctx.exhaustive = True
@@ -290,6 +301,14 @@ def _decode_rules(ctx: Ctx, dec: FuncInfo, C: dict[str, int],
     scan(loop.body)
     ctx.floor(f"coordinate_store_groups_{dec.module.name[-1]}",
               len(groups), 2)
+    drops = [g for _, g in groups if g.get(C["IDX_BOTTOM_Y"]) == H]
+    resets = [g for _, g in groups if g.get(C["IDX_BOTTOM_Y"]) ==
+              Poly.const(0) and g.get(C["IDX_LEFT_X"]) == Poly.const(0)]
+    ctx.ob("D1.7", dec, loop, len(drops) >= 1 and len(resets) >= 1 and len(
+        drops) + len(resets) == len(groups),
+           "every placement is either a drop with bottom = bin height "
+           "(above all kept boxes) or the reset to the bottom-left corner "
+           "of a fresh bin", construct="initial positions disjoint")
     for node, g in groups:
         full = set(g) == {C["IDX_LEFT_X"], C["IDX_BOTTOM_Y"],
                           C["IDX_RIGHT_X"], C["IDX_TOP_Y"]}
@@ -523,3 +542,197 @@ def _dtype(ctx: Ctx) -> None:
     ctx.ob("D1.6", pk, pk.node, okp,
            "Packing is allocated with instance.dtype",
            construct="packing uses instance dtype", nontrivial=False)
+
+
+# ------------------------------------------------------------------ D1.7
+def _atomic_dnf(c: tuple) -> list[list[tuple]]:
+    """DNF of a symterm condition over atomic lt / le / eq (ne split)."""
+    k = c[0]
+    if k == "true":
+        return [[]]
+    if k == "false":
+        return []
+    if k in ("lt", "le", "eq"):
+        return [[c]]
+    if k == "and":
+        out: list[list[tuple]] = [[]]
+        for x in c[1:]:
+            out = [a + b for a in out for b in _atomic_dnf(x)]
+        return out
+    if k == "or":
+        out = []
+        for x in c[1:]:
+            out += _atomic_dnf(x)
+        return out
+    if k == "not":
+        d = c[1]
+        if d[0] == "eq":
+            return [[("lt", d[1], d[2])], [("lt", d[2], d[1])]]
+        if d[0] == "lt":
+            return [[("le", d[2], d[1])]]
+        if d[0] == "le":
+            return [[("lt", d[2], d[1])]]
+        if d[0] == "and":
+            return _atomic_dnf(("or", *[("not", x) for x in d[1:]]))
+        if d[0] == "or":
+            return _atomic_dnf(("and", *[("not", x) for x in d[1:]]))
+        if d[0] == "not":
+            return _atomic_dnf(d[1])
+    raise Unsupported(f"condition {k} in DNF")
+
+
+def _move_lemma(ctx: Ctx, fi: FuncInfo, kind: str, C: dict[str, int],
+                enc2: bool) -> None:
+    """Pairwise lemma: a move by M (0 < M <= every blocker limit, M <= own
+    coordinate) keeps the moved box disjoint from every box it was disjoint
+    from.  Decided per leaf of the kernel's limit tree by Fourier-Motzkin."""
+    from sa.lin import Lin, consistent, entails
+    from sa.loopsum import INF, kvar
+    from sa.symterm import ite as mk_ite
+    name = f"{fi.module.name.split('.')[-1]}.{fi.name}"
+    try:
+        env = summarise(ctx, fi)
+    except Unsupported as u:
+        ctx.ob("D1.7", fi, fi.node, False, f"cannot summarise: {u}",
+               construct=f"{name} preserves non-overlap")
+        return
+    ret = env.returned
+    M = ret[2].as_atom() if isinstance(ret, tuple) and ret[0] == "lt" and \
+        isinstance(ret[2], Poly) else None
+    if M is None or M[0] != "minred":
+        ctx.ob("D1.7", fi, fi.node, False, "kernel limit is not a minimum",
+               construct=f"{name} preserves non-overlap")
+        return
+    term, init, guard = M[4], M[5], M[6]
+    T = mk_ite(guard, term, INF) if guard != ("true",) else term
+    arr = fi.params[0]
+    i1, k0 = Poly.var("i1"), kvar(0)
+    names = {}
+    for nm, row in (("1", i1), ("0", k0)):
+        for cn, short in (("IDX_LEFT_X", "L"), ("IDX_BOTTOM_Y", "B"),
+                          ("IDX_RIGHT_X", "R"), ("IDX_TOP_Y", "T")):
+            names[("cell", arr, (row, Poly.const(C[cn])))] = short + nm
+    bin_atom = ("cell", arr, (k0, Poly.const(C["IDX_BIN"])))
+
+    def lin(p: Poly) -> Lin:
+        r = Lin.const(p.terms.get((), 0))
+        for mono, c in p.terms.items():
+            if mono == ():
+                continue
+            if len(mono) != 1 or mono[0][1] != 1 or mono[0][0] not in names:
+                raise Unsupported(f"non-linear / foreign term {show(p)}")
+            r = r + Lin.sym(names[mono[0][0]]).scale(c)
+        return r
+
+    def atom_facts(a: tuple) -> list[Lin]:
+        x, y = lin(a[1]), lin(a[2])
+        if a[0] == "lt":
+            return [y - x - 1]
+        if a[0] == "le":
+            return [y - x]
+        return [y - x, x - y]
+
+    leaves: list[tuple[list[tuple], Poly]] = []
+
+    def walk(t: Poly, path: list[tuple]) -> None:
+        a = t.as_atom()
+        if a is not None and a[0] == "ite":
+            walk(a[2], path + [a[1]])
+            walk(a[3], path + [("not", a[1])])
+        else:
+            leaves.append((path, t))
+    walk(T, [])
+    S = {n: Lin.sym(n) for n in ("L0", "B0", "R0", "T0", "L1", "B1", "R1",
+                                 "T1", "m")}
+    side = [S["R1"] - S["L1"] - 1, S["T1"] - S["B1"] - 1,
+            S["R0"] - S["L0"] - 1, S["T0"] - S["B0"] - 1, S["m"] - 1]
+    pre = [S["L1"] - S["R0"], S["L0"] - S["R1"], S["B1"] - S["T0"],
+           S["B0"] - S["T1"]]
+    if kind == "down":
+        post = [S["L1"] - S["R0"], S["L0"] - S["R1"],
+                S["B1"] - S["m"] - S["T0"], S["B0"] - S["T1"] + S["m"]]
+        own = S["B1"]
+    else:
+        post = [S["L1"] - S["m"] - S["R0"], S["L0"] - S["R1"] + S["m"],
+                S["B1"] - S["T0"], S["B0"] - S["T1"]]
+        own = S["L1"]
+    n_cases = 0
+    bad = None
+    try:
+        init_l = lin(init)
+        for path, leaf in leaves:
+            # conditions on the bin id: only the same-bin case matters
+            conj_sets: list[list[tuple]] = [[]]
+            skip = False
+            for c in path:
+                def has_bin(x: Any) -> bool:
+                    from sa.symterm import all_atoms
+                    return bin_atom in all_atoms(x)
+                if has_bin(c):
+                    # decide eq(bin0, bin_id) := True
+                    val = _decide_bin(c, bin_atom)
+                    if val is False:
+                        skip = True
+                    elif val is None:
+                        c2 = _fix_bin(c, bin_atom)
+                        conj_sets = [a + b for a in conj_sets
+                                     for b in _atomic_dnf(c2)]
+                    continue
+                conj_sets = [a + b for a in conj_sets
+                             for b in _atomic_dnf(c)]
+            if skip:
+                continue
+            for conj in conj_sets:
+                base = list(side)
+                for a in conj:
+                    base += atom_facts(a)
+                base.append(init_l - S["m"])
+                if leaf != INF:
+                    base.append(lin(leaf) - S["m"])
+                for pd in pre:
+                    facts = base + [pd]
+                    if not consistent(facts):
+                        continue
+                    n_cases += 1
+                    if not any(entails(facts, g) for g in post):
+                        if bad is None:
+                            bad = ("limit " + show(leaf) + " under ["
+                                   + " and ".join(
+                                       f"{show(a[1])} {a[0]} {show(a[2])}"
+                                       for a in conj)[:200] + "]")
+        del own
+    except Unsupported as u:
+        bad = f"not linear: {u}"
+    ctx.count("nonoverlap_cases", n_cases)
+    ctx.ob("D1.7", fi, fi.node, bad is None and n_cases > 0,
+           f"{name}: in all {n_cases} (limit leaf x path x disjointness) "
+           "cases, moving by 0 < M <= limit keeps the two boxes disjoint "
+           "(Fourier-Motzkin)" if bad is None else
+           f"{name}: a move can create an overlap with an earlier box: "
+           f"{bad}", construct=f"{name} preserves non-overlap")
+
+
+def _decide_bin(c: tuple, bin_atom: tuple) -> bool | None:
+    """Truth of a condition that is only about the bin id, assuming the
+    other box is in the same bin; None if mixed."""
+    from sa.symterm import all_atoms
+    if c[0] == "eq" and bin_atom in all_atoms(c):
+        return True
+    if c[0] == "not":
+        d = _decide_bin(c[1], bin_atom)
+        return None if d is None else (not d)
+    return None
+
+
+def _fix_bin(c: tuple, bin_atom: tuple) -> tuple:
+    """Replace bin-id comparisons inside and/or by their same-bin truth."""
+    from sa.symterm import all_atoms, c_and, c_not, c_or
+    if c[0] == "eq" and bin_atom in all_atoms(c):
+        return ("true",)
+    if c[0] == "not":
+        return c_not(_fix_bin(c[1], bin_atom))
+    if c[0] == "and":
+        return c_and(*[_fix_bin(x, bin_atom) for x in c[1:]])
+    if c[0] == "or":
+        return c_or(*[_fix_bin(x, bin_atom) for x in c[1:]])
+    return c
